@@ -116,8 +116,11 @@ func H02g() {
 	resp, err := r.IntrospectAccessToken(hC02IntrospectCtx(), IntrospectAccessTokenRequestObject{Body: &IntrospectAccessTokenFormdataRequestBody{Token: input}})
 
 	known := input == issued.AccessToken
-	// reference: not expired at t1  <=>  t1 <= t0 + 900 s
+	// reference: expiry instant = t0 + 900 s. The property does not say whether the token is still valid AT
+	// that instant (the code says yes, RFC 7519 says no), so that single instant is accepted either way:
+	// "active => t1 <= expiry" and "t1 < expiry => active".
 	notExpired := t1.sec < t0.sec+900 || (t1.sec == t0.sec+900 && t1.nsec <= t0.nsec)
+	beforeExpiry := t1.sec < t0.sec+900 || (t1.sec == t0.sec+900 && t1.nsec < t0.nsec)
 	if err != nil {
 		vCover("error")
 		vAssert(known && notExpired && nclaims == 1 && hC02IsStandardMember(claimKey) || claimKey == "sub", "H02g.error_only_for_reserved_claim: introspection failed for another reason than a claim named like a standard member")
@@ -127,7 +130,7 @@ func H02g() {
 	vAssert(is200, "H02g.response_type: introspection did not answer 200")
 	if !r200.Active {
 		vCover("inactive")
-		vAssert(!(known && notExpired), "H02g.valid_token_inactive: an unexpired token issued by this node is reported inactive")
+		vAssert(!(known && beforeExpiry), "H02g.valid_token_inactive: an unexpired token issued by this node is reported inactive")
 		vAssert(r200.Iss == nil && r200.ClientId == nil && r200.Scope == nil && r200.Cnf == nil && r200.Exp == nil && r200.Iat == nil && len(r200.AdditionalProperties) == 0,
 			"H02g.inactive_discloses_nothing: inactive response carries token details")
 		if known {
